@@ -8,6 +8,8 @@ tag, sid, note = sys.argv[1], sys.argv[2], sys.argv[3]
 wt = '/tmp/mut/%s' % tag
 out = '/tmp/mut/%s-out' % tag
 meta = json.load(open(out + '/meta.json'))
+import re
+meta['build_cmd'] = re.sub(r'&&\s*(\./|/tmp/mut/\S*/)demo\s*$', '', meta['build_cmd'])
 def sh(c, cwd=None):
     r = subprocess.run(c, shell=True, cwd=cwd, capture_output=True, text=True)
     return r.returncode, (r.stdout + r.stderr)[-600:]
@@ -33,7 +35,7 @@ if not ('SUCCESS' in res['suite_with_change'] and rc1 != 0 and rc0 == 0):
 dst = '/verif/seeded/%s' % sid
 os.makedirs(dst, exist_ok=True)
 for f in os.listdir(out):
-    if f.endswith(('.diff', '.c', '.cpp', '.h')):
+    if f.endswith(('.diff', '.c', '.cpp', '.h', '.sh')):
         shutil.copy(out + '/' + f, dst)
 meta['confirmed'] = res
 meta['detected_by'] = note
